@@ -7,6 +7,9 @@ CONSTANTS
   HistSeps <- Delims3
   HistMax = 3
   LongHistSources <- Src1
+  LifeSources <- LifeSrc
+  LifeSeps <- LifeSeps2
+  CharChoices <- CustomOnly
   Obs <- ObsEmitHist
-INVARIANTS TokensOfCurrentSourceOnly BlankSourceHasNoTokens HistoryIrrelevant
+INVARIANTS TokensOfCurrentSourceOnly StockObjectIsStockGrammar BlankSourceHasNoTokens HistoryIrrelevant DoneResets DoneLeavesBlank
 CHECK_DEADLOCK FALSE
